@@ -20,7 +20,10 @@ for name in sorted(os.listdir(os.path.join(HERE, "benign"))):
     try:
         ap = subprocess.run(["git", "-C", wt, "apply", os.path.join(d, "patch.diff")], capture_output=True)
         if ap.returncode:
-            rows.append((name, "PATCH DOES NOT APPLY", ""))
+            ap = subprocess.run(["git", "-C", wt, "apply", "--3way", os.path.join(d, "patch.diff")], capture_output=True)
+            subprocess.run(["git", "-C", wt, "reset", "-q"], capture_output=True)
+        if ap.returncode:
+            rows.append((name, "PATCH DOES NOT APPLY", "(written against the tree before the last repairs)"))
             continue
         res, bad, notes = [], False, []
         for pid in [meta["property"]] + extra:
